@@ -37,7 +37,7 @@ LEAN_MODULES = ["LunaVerif.Props.C20", "LunaVerif.Lemmas.C20CycAbs", "LunaVerif.
                 # ... wired into the closed device as the rest slot: restHolds becomes a theorem
                 "LunaVerif.Lemmas.C20DeviceCtl", "LunaVerif.Lemmas.C20DeviceCtlExamples",
                 # ... and with the setup decoder's FSM + deserializer (C06 decStep / deserStep) on the shared tokenizer/timer/CRC
-                "LunaVerif.Lemmas.C20DeviceDec", "LunaVerif.Lemmas.C20DeviceDecExamples"]
+                "LunaVerif.Lemmas.C20DeviceDec", "LunaVerif.Lemmas.C20DeviceDecExamples", "LunaVerif.Lemmas.C20DeviceDecAck"]
 DRIVER = "Driver/C20.lean"
 REQUIRED_THEOREMS = ["mux_single_source", "generator_idle_unless_stream_valid", "handshake_idle_unless_requested",
                      "every_response_is_handshake_or_crc_valid_data", "response_only_after_addressed_token_or_data",
@@ -59,7 +59,8 @@ REQUIRED_THEOREMS = ["mux_single_source", "generator_idle_unless_stream_valid", 
                      "ctl_env", "joint_step", "restHolds_of_ctl", "ctl_closed_tx_never_during_rx",
                      "ctl_closed_transmitters_exclusive", "ctl_closed_tx_only_in_response_window",
                      # setup decoder FSM + deserializer composed in
-                     "deser_new", "dec_regs", "dec_received_origin", "tok_facts", "decHolds_of_dec", "dec_closed_tx_never_during_rx",
+                     "deser_new", "dec_regs", "dec_received_origin", "tok_facts", "decHolds_of_dec",
+                     "dec_ack_origin", "dec_ack_tx_allowed", "dec_closed_tx_never_during_rx",
                      "dec_closed_transmitters_exclusive", "dec_closed_tx_only_in_response_window"]
 RULE = ("cases = 'mux' (number of inputs x random valid/data patterns, one-hot and overlapping) and 'full' (descriptor set, "
         "endpoint set {bulk IN, bulk OUT, status}, extra handlers) x adaptive LegalHost script (control transfers, bulk IN "
@@ -138,7 +139,9 @@ PARTIAL = ("Proved: the transaction-level theorems for every state and event of 
            "received strobe; received is visible only while the tokenizer shows SETUP - the token detector is idle after the "
            "cycle without rx_active and keeps its pid over that edge), giving dec_closed_tx_never_during_rx / _transmitters_exclusive / _tx_only_in_response_window "
            "under hostHolds + decHolds'. STILL ASSUMED (decHolds', see ASSUMPTIONS) and NOT proved: the decoder's ACK "
-           "coincides with the receiver's ready_for_response while the tokenizer still shows SETUP; "
+           "coincides with the receiver's ready_for_response while the tokenizer still shows SETUP (proved of it: "
+           "dec_ack_origin / dec_ack_tx_allowed - at full speed the ACK is driven only when tx_allowed of the shared timer "
+           "holds, in READ_DATA for an 8-byte new_packet under a SETUP pid or in DELAY); "
            "no received inside an open response window (these two need the joint invariant "
            "'decoder in DELAY <=> receiver in its inter-packet DELAY', the lock-step of the deserializer with the token "
            "detector, and the equality of the deserializer's and the receiver's CRC16 checks); no host ACK "
